@@ -122,6 +122,33 @@ def r1_qvalue(ctx, qfn):
     ctx.floor("C16.R1", ngram, 1000, what="grammatical qvalue strings evaluated")
 
 
+def ows_free(t, depth=0):
+    """(no leading optional whitespace, no trailing optional whitespace) established for the string a term denotes, by the
+    trim operations applied on the way from the list element: trim -> both; trim_start / trim_end -> one side, the other
+    inherited; a sub-slice keeps the side it shares with its base (the part before `;` keeps the start, the part after it the
+    end); anything else - the raw element of `split(',')` in particular - neither"""
+    while isinstance(t, tuple) and t and t[0] in ("deref", "&", "slice_of", "refconst") and depth < 40:
+        t = t[1]
+        depth += 1
+    if not isinstance(t, tuple) or not t or depth >= 40:
+        return (False, False)
+    if t[0] == "call" and len(t[2]) >= 1:
+        last = t[1].split("::")[-1]
+        if last == "trim" and len(t[2]) == 1:
+            return (True, True)
+        if last == "trim_start" and len(t[2]) == 1:
+            return (True, ows_free(t[2][0], depth + 1)[1])
+        if last == "trim_end" and len(t[2]) == 1:
+            return (ows_free(t[2][0], depth + 1)[0], True)
+        return (False, False)
+    if t[0] == "slice" and len(t) == 4:
+        b = ows_free(t[1], depth + 1)
+        return (b[0] and t[2] == const(0), b[1] and t[3] is None)
+    if t[0] == "payload" and isinstance(t[1], tuple) and t[1] and t[1][0] == "call" and t[1][1].endswith("strip_prefix") and t[2] == "Some":
+        return (False, ows_free(t[1][2][0], depth + 1)[1])       # what follows a stripped literal prefix: the end is the receiver's end
+    return (False, False)
+
+
 def r2_slots(ctx, sgn, qfn):
     outs = ctx.px(sgn, inline=lambda c, d: c.get("res_path") != qfn, key="all-but-qvalue")
     info = P.BodyInfo(ctx.facts.bodies[sgn])
@@ -168,8 +195,10 @@ def r2_slots(ctx, sgn, qfn):
                 for x in (tt[1], tt[2]):
                     if not (isinstance(x, tuple) and x[0] == "str"):
                         ct = x
-        if ct is not None and "::trim'" not in repr(ct)[:400]:
-            ctx.violation("C16.R2", "C16.R2|coding-not-trimmed", "the coding name compared with %r is not trimmed: optional whitespace around `,` / `;` would hide it" % coding)
+        if ct is not None and ows_free(ct) != (True, True):
+            lt = ows_free(ct)
+            ctx.violation("C16.R2", "C16.R2|coding-not-trimmed", "the coding name compared with %r can keep %s optional whitespace: blanks around `,` / `;` would hide it" %
+                          (coding, "leading and trailing" if lt == (False, False) else ("leading" if not lt[0] else "trailing")))
         key, new = changed[0]
         if slots.setdefault(coding, key) != key:
             ctx.violation("C16.R2", "C16.R2|slot-ambiguous|%s" % coding, "coding %r writes different slots on different paths" % coding)
@@ -194,8 +223,10 @@ def r2_slots(ctx, sgn, qfn):
                     ss = repr(tt)
                     if "'q='" not in ss:
                         ctx.violation("C16.R2", "C16.R2|weight-prefix", "the weight parameter is not introduced by the literal `q=`")
-                    elif "::trim'" not in ss:
+                    elif not ows_free(tt[2][0])[0]:
                         ctx.violation("C16.R2", "C16.R2|weight-not-trimmed", "the weight parameter is not trimmed before `q=` is matched (whitespace after `;` would make the header unparseable)")
+                    elif not ows_free(tt[2][0])[1]:
+                        ctx.violation("C16.R2", "C16.R2|weight-not-trimmed-end", "the weight's end is not trimmed before it is parsed (whitespace before the next `,` would make the header unparseable)")
             from_parser = qfn in s
             if not from_parser and is_const(q):
                 # the path may have tested the parsed weight against a constant (then the value is folded): accept if so
